@@ -250,7 +250,7 @@ func joinProbes(w *reclib.WorkerCtx, cs Case, pb *reclib.Playback, note func(str
 	}
 	for _, s := range starts {
 		from := joinStart(s.file).Add(s.off)
-		intoNext := joinStart(s.file+1).Add(600 * time.Millisecond).Sub(from)
+		intoNext := joinStart(s.file + 1).Add(600 * time.Millisecond).Sub(from)
 		for _, d := range []struct {
 			name string
 			d    time.Duration
